@@ -37,6 +37,9 @@ type Case struct {
 	// that a class in the middle of the walk order lives in another package (as many classes, the same first and last
 	// one). The recorded runs must not notice: their entries depend on their own files and identifier set only.
 	Prelude bool `json:"prelude"`
+	// Outsider (histories): the 1-based index of a selected file that is PROCESSED by the runs that list it but is not part
+	// of the identifier set handed to the full pass (a superset of files with the identifier set held fixed); 0 = none
+	Outsider int `json:"outsider"`
 }
 
 type KVObs struct {
@@ -100,6 +103,7 @@ type Record struct {
 	Runs     [][]int         `json:"runs"`
 	Fresh    []bool          `json:"fresh"`
 	Facts    []javagen.Facts `json:"facts"`
+	Outsider int             `json:"outsider"`
 	Observed []RunObs        `json:"observed"`
 }
 
@@ -184,6 +188,9 @@ func one(raw json.RawMessage) interface{} {
 		c.Fresh = []bool{}
 	}
 	rec := Record{Case: c.Case, Files: c.Files, Layout: c.Layout, Runs: c.Runs, Fresh: c.Fresh, Facts: []javagen.Facts{}, Observed: []RunObs{}}
+	if len(c.Runs) > 0 && c.Outsider >= 1 && c.Outsider <= len(c.Files) && selected(c.Files[c.Outsider-1]) {
+		rec.Outsider = c.Outsider
+	}
 	paths := make([]string, len(c.Files))
 	for i, f := range c.Files {
 		text, facts := javagen.Render(f, c.Layout)
@@ -265,7 +272,7 @@ func one(raw json.RawMessage) interface{} {
 	// histories: the identifier set is that of the whole pool (held fixed), computed once
 	var all []string
 	for i, f := range c.Files {
-		if selected(f) {
+		if selected(f) && i+1 != rec.Outsider {
 			all = append(all, paths[i])
 		}
 	}
@@ -306,7 +313,7 @@ func one(raw json.RawMessage) interface{} {
 	}
 	for ri, run := range c.Runs {
 		if ri < len(c.Fresh) && c.Fresh[ri] {
-			sub := Case{Case: c.Case, Files: c.Files, Layout: c.Layout, Runs: [][]int{run}}
+			sub := Case{Case: c.Case, Files: c.Files, Layout: c.Layout, Runs: [][]int{run}, Outsider: rec.Outsider}
 			raw, err := lib.Fresh(sub)
 			var sr Record
 			if err == nil {
